@@ -40,6 +40,9 @@ def draw_scenario(ch):
           "precision": "float64" if ch.bool(0.5, "float64") else "float32"}
     if t == "Images" and ch.bool(0.3, "dose-per-area"):
         sc["dose_kind"] = "dose_per_area"
+    elif ch.bool(0.3, "dose-series"):
+        # a dose series adds a leading 'Dose' ensemble axis; equal doses are allowed (they must still be independent)
+        sc["dose_series"] = [ch.pick([100.0, 1e4, 500.0], "dose-k") for _ in range(ch.range(2, 3, "n-doses"))]
     # chunking of the ensemble axes for the lazy subject
     chunks = []
     for n in ens:
@@ -89,6 +92,8 @@ def make_measurement(sc, lazy=False):
 
 def noisy(sc, m):
     kw = {sc["dose_kind"]: sc["dose"]}
+    if sc.get("dose_series"):
+        kw = {"total_dose": list(sc["dose_series"])}
     return m.poisson_noise(samples=sc["samples"], seed=sc["seed"], **kw)
 
 
@@ -122,13 +127,16 @@ def run_one(run):
         rate = signal.astype(float) * sc["dose"] * 0.2 * 0.2
     else:
         rate = signal.astype(float) * sc["dose"]
+    series = sc.get("dose_series")
+    if series:
+        rate = np.stack([signal.astype(float) * d for d in series])
     e1 = guard(lambda: noisy(sc, m), "eager")
     if e1 is None:
         return
     a1 = oracle.to_numpy(e1.array)
     if not np.array_equal(oracle.to_numpy(m.array), signal):
         run.violate("input-unchanged", sig(sc, "values", "eager"), "poisson_noise modified the receiver's array")
-    want_shape = ((sc["samples"],) if sc["samples"] > 1 else ()) + signal.shape
+    want_shape = ((len(series),) if series else ()) + ((sc["samples"],) if sc["samples"] > 1 else ()) + signal.shape
     if a1.shape != want_shape:
         run.violate("valid-counts", sig(sc, "shape", "eager"), f"shape {a1.shape} != {want_shape}")
         return
@@ -143,7 +151,8 @@ def run_one(run):
     if abs(tot - tot_rate) > 8 * np.sqrt(tot_rate) + 1 + 1e-6 * tot_rate:
         run.violate("expectation", sig(sc, "total", "eager", {"dose_kind": sc["dose_kind"]}),
                     f"total counts {tot:.6g} vs dose x signal {tot_rate:.6g} (8 sigma = {8 * np.sqrt(tot_rate):.3g})")
-    zero = np.broadcast_to(rate == 0, a1.shape)
+    rate_b = rate if not (series and sc["samples"] > 1) else np.repeat(rate[:, None], sc["samples"], axis=1)
+    zero = np.broadcast_to(rate_b == 0, a1.shape)
     if zero.any() and (a1[zero] != 0).any():
         run.violate("expectation", sig(sc, "zero-signal", "eager"), "counts where the signal is zero")
     # ---- (b) reproducible ---------------------------------------------------------------------------------------------------
@@ -179,6 +188,8 @@ def run_one(run):
     # ---- (d) independence between members -----------------------------------------------------------------------------------------
     npix = int(np.prod(sc["base"]))
     member_rate = float(rate.reshape(-1, npix)[0].sum()) if rate.size else 0.0
+    if series and sc["signal"] == "constant":
+        member_rate = float(min(series)) * float(signal.reshape(-1, npix)[0].sum())
     if sc["signal"] == "constant" and npix >= 64 and member_rate >= 200:
         for name, a in (("eager", a1), ("lazy", la)):
             if a is None:
